@@ -672,6 +672,11 @@ fn dbg(ctx: &Ctx, bi: Bi, what: &str, call: &Value) -> Value {
         _ => return out::unsupported(),
     }
     std::hint::black_box(&s);
+    // the Debug rendering of a string tag shows what its accessor returns (Debug escapes quotes, so the
+    // pattern cannot occur inside the rendered text itself)
+    if what == "cmdline" || what == "bootloader" {
+        return json!({"k": "unit", "sok": if s.contains(": Ok(\"") { 1 } else { 0 }});
+    }
     out::unit()
 }
 
